@@ -261,6 +261,44 @@ def _zip(*a, **k):
     return _b.zip(*a, **k)
 
 
+class _Star:
+    __slots__ = ("v",)
+
+    def __init__(self, v):
+        self.v = v
+
+
+def _star(v):
+    return _Star(v)
+
+
+def _cat(kind, *parts):
+    """`[a, *b, c]` (pass P4): concatenation of the literal runs and the starred operands, in order"""
+    from .seq import SymSeq
+
+    vals = [(p.v if _real_isinstance(p, _Star) else p) for p in parts]
+    if not _b.any(_real_isinstance(v, SymSeq) for v in vals):
+        out = []
+        for v in vals:
+            out.extend(v)  # iterates each operand once, left to right, like the display itself
+        return out if kind == "list" else _b.tuple(out)
+    acc = None
+    for v in vals:
+        if acc is None:
+            acc = v if _real_isinstance(v, SymSeq) else None
+            if acc is None:
+                first = _b.list(v)
+                acc = first
+            continue
+        if _real_isinstance(acc, SymSeq):
+            acc = acc + (v if _real_isinstance(v, SymSeq) else _b.list(v))
+        elif _real_isinstance(v, SymSeq):
+            acc = v.__radd__(acc)
+        else:
+            acc = acc + _b.list(v)
+    return acc.as_kind(kind, copy=True)
+
+
 def make_builtins():
     """builtins dict for shadow modules: only *functions* are replaced; the type names int/float/
     tuple/list/bytes/bytearray stay the real types (so isinstance/annotations/dtype= keep working)
@@ -281,6 +319,8 @@ def make_builtins():
         __vc_bytes__=_bytes,
         __vc_tuple__=_tuple,
         __vc_list__=_list,
+        __vc_cat__=_cat,
+        __vc_star__=_star,
     )
     return d
 
